@@ -18,7 +18,7 @@ NA = {
 CHECKS = {
  "C12": dict(engine="csvfrag", level="exploration", design="§3 C12",
    technique="deterministic simulation: seeded fragmentation schedules of the io.Reader (SimReader) + buffer-capacity knob, oracle = single-read run and the document's denotation",
-   text="Seeded exploration: rapid draws document, configuration, read plan (one-byte/constant/random/boundary-targeted cuts, EOF style) and scan-buffer capacity; every run is compared with the single-read run (schedule independence), with the cells the generator rendered (faithfulness) and against a Read-call budget (bounded liveness). Sampling, not proof: the schedule space is exponential in document length; boundary-targeted plans and the 1..64 byte buffer knob aim the samples at the refill/realloc/compaction paths.",
+   text="Seeded exploration: rapid draws document, configuration, read plan (one-byte/constant/random/boundary-targeted cuts, EOF style) and scan-buffer capacity; every run is compared with the single-read run (schedule independence), with the cells the generator rendered (faithfulness) and against a Read-call budget (bounded liveness). Sampling, not proof: the schedule space is exponential in document length; boundary-targeted plans and the 1..64 byte buffer knob aim the samples at the refill/realloc/compaction paths; rare large cases cross the size thresholds (rows beyond 32 KiB, >= 1000 rows with an outgrown RowCountHint, 254..258 distinct enum values). A second, small phase reads large typed documents under the Go race detector.",
    note="Trusted: SimReader obeys the io.Reader contract; the denotation oracle uses strconv.Atoi/ParseFloat/ParseBool as the documented definition of type inference; documents are restricted to the unambiguous well-formed space (no CR in cells). rapid v1.3.0 is the only choice source; replay = rapid fail file."),
  "C13": dict(engine="roundtrip", level="exploration", design="§3 C13",
    technique="deterministic simulation: writer and reader as two scheduled tasks over a bounded simulated pipe; read-your-writes oracle cell by cell",
